@@ -34,6 +34,13 @@ void averages_histories(const Args& a, Recorder& rec, Clock& clk) {
             QuadraticOperator QA(*P.IC, *P.S, *P.H, t[0], t[1]), QB(*P.IC, *P.S, *P.H, t[2], t[3]); QA.prepare(); QA.compute(); QB.prepare(); QB.compute();
             cd avA = refed::thermal_avg(sp, refed::to_eigenbasis(sp, refed::cdag_op(M, t[0]) * refed::c_op(M, t[1]))), avB = refed::thermal_avg(sp, refed::to_eigenbasis(sp, refed::cdag_op(M, t[2]) * refed::c_op(M, t[3])));
             Susceptibility X0(*P.S, *P.H, QA, QB, *P.rho); X0.prepare(); X0.compute(); cd p0 = X0(0), p1 = X0(1), pt = X0.of_tau(beta / 3);
+            // copies (both classes declare copy constructors): a copy, and a copy on which prepare()/compute() are called again, give the original's values
+            { Susceptibility K1(X0); Susceptibility K2(X0); K2.prepare(); K2.compute(); Susceptibility Pp(*P.S, *P.H, QA, QB, *P.rho); Pp.prepare(); Susceptibility K3(Pp); K3.compute();
+              Susceptibility* ks[3] = { &K1, &K2, &K3 }; const char* kn[3] = { "copy", "copy+prepare+compute", "copy-of-prepared+compute" };
+              for (int q = 0; q < 3; ++q) { rec.evaluations++; if (std::abs((*ks[q])(0) - p0) > 1e-12 * (1 + std::abs(p0)) || std::abs((*ks[q])(1) - p1) > 1e-12 * (1 + std::abs(p1)) || std::abs(ks[q]->of_tau(beta / 3) - pt) > 1e-12 * (1 + std::abs(pt))) rec.violation(std::string("C14:copy:susceptibility:") + kn[q], "a copied susceptibility returns other values than its original", c.repr + " | chi(" + std::to_string(t[0]) + std::to_string(t[1]) + "," + std::to_string(t[2]) + std::to_string(t[3]) + ") beta=3"); }
+              EnsembleAverage E1(*P.S, *P.H, QA, *P.rho); E1.prepare(); EnsembleAverage E2(E1); EnsembleAverage E3(E1); E3.prepare(); EnsembleAverage E0(*P.S, *P.H, QA, *P.rho); EnsembleAverage E4(E0); E4.prepare();
+              EnsembleAverage* es[3] = { &E2, &E3, &E4 }; const char* en[3] = { "copy", "copy+prepare", "copy-of-unprepared+prepare" };
+              for (int q = 0; q < 3; ++q) { rec.evaluations++; if (std::abs(es[q]->getResult() - avA) > 1e-9 * (1 + std::abs(avA)) + 1e-10) rec.violation(std::string("C14:copy:ensemble-average:") + en[q], "a copied ensemble average differs from <A>", c.repr + " | <c+_" + std::to_string(t[0]) + " c_" + std::to_string(t[1]) + "> beta=3"); } }
             const char* names[6] = { "EA.prepare()", "EB.prepare()", "X1.subtractDisconnected(EA,EB)", "X2.subtractDisconnected(EA,EB)", "X1.subtractDisconnected()", "X2.subtractDisconnected(<A>,<B>)" };
             std::string base = c.repr + " | chi(" + std::to_string(t[0]) + std::to_string(t[1]) + "," + std::to_string(t[2]) + std::to_string(t[3]) + ") beta=3 | averages: ";
             auto replay = [&](const std::vector<int>& h, std::string& key) {
